@@ -625,7 +625,17 @@ func (l *IPFSLog) Join(otherLog iface.IPFSLog, size int) (iface.IPFSLog, error) 
 	}
 
 	verifPoint("join.beforeHeads", l)
-	mergedHeads := entry.FindHeads(l.heads.Merge(otherHeads))
+	// only the heads of the other log that are entries of this log now (merged
+	// or already here) are candidates: one that was skipped (another log id)
+	// must not supersede the heads it points to either
+	candidateHeads := l.heads.Merge(entry.NewOrderedMap())
+	for _, h := range otherHeads.Slice() {
+		if _, ok := l.Entries.Get(h.GetHash().String()); ok {
+			candidateHeads.Set(h.GetHash().String(), h)
+		}
+	}
+
+	mergedHeads := entry.FindHeads(candidateHeads)
 
 	for idx, e := range mergedHeads {
 		// notReferencedByNewItems
@@ -635,12 +645,6 @@ func (l *IPFSLog) Join(otherLog iface.IPFSLog, size int) (iface.IPFSLog, error) 
 
 		// notInCurrentNexts
 		if _, ok := l.Next.Get(e.GetHash().String()); ok {
-			mergedHeads[idx] = nil
-		}
-
-		// a head of the other log that was not merged (it carries another
-		// log id) is not an entry of this log: it can't be one of its heads
-		if _, ok := l.Entries.Get(e.GetHash().String()); !ok {
 			mergedHeads[idx] = nil
 		}
 	}
